@@ -33,7 +33,8 @@ MONITORS = ["detection", "loaded_content", "mutate_output", "mutate_backup", "in
 REQUIRED = ["detected_utf-8", "detected_cp1252", "detected_cp932", "detected_cp949", "undecodable", "custom_try_encodings",
             "explicit_encoding", "native", "memory", "backup_and_output", "valid_under_several", "edit_changes_chart_in_place",
             "same_path_opened_twice_different_lists", "multibyte_char_straddles_1024", "output_and_backup_equal_input", "no_song_level_property",
-            "file_ends_with_non_ascii_character"]
+            "file_ends_with_non_ascii_character", "input_path_with_several_dots", "several_dots_and_content_of_the_other_format",
+            "backup_path_is_a_proper_prefix_of_the_input_path"]
 
 DEFAULT = ["utf-8", "cp1252", "cp932", "cp949"]
 SAMPLES = {
@@ -146,12 +147,15 @@ def cases(ctx):
     n = ctx.split(2500 if ctx.tier == "quick" else 16 * 6000)
     for i in range(n):
         ext = rng.choice(["sm", "ssc"])
+        # the content usually is of the kind the extension promises; now and then it is the other kind (the extension decides)
+        content_ext = ext if rng.random() < 0.85 else ("ssc" if ext == "sm" else "sm")
         if i % 12 == 11:
             content = {"invalid": rng.randrange(len(INVALID))}
             enc_w = None
         else:
-            enc_w, text = gen_content(rng, ext)
+            enc_w, text = gen_content(rng, content_ext)
             content = {"enc": enc_w, "text": text}
+        in_name = rng.choice(["in.", "in.", "in.", "in.", "old_song.", "Song.v2.", "sub/in.", "pack.1/in.", "in.final.", "a.ssc.b.sm."]) + ext
         tried = rng.choice([None, None, None, "perm", "subset", "single"])
         if tried == "perm":
             tried = rng.sample(DEFAULT, 4)
@@ -162,7 +166,8 @@ def cases(ctx):
         yield {
             "ext": ext, "content": content, "tried": tried, "fs": rng.choice(["native", "memory"]),
             "output": rng.choice([None, None, "out." + ext, "sub/out." + ext]),
-            "backup": rng.choice([None, None, "in." + ext + ".bak", "=input", "=output", "backup.old"]),
+            "backup": rng.choice([None, None, "in." + ext + ".bak", "=input", "=output", "backup.old", "=prefix", "song." + ext]),
+            "in_name": in_name, "content_ext": content_ext,
             "seed": rng.getrandbits(32), "strict": rng.random() < 0.85,
         }
 
@@ -197,10 +202,12 @@ class World:
             self.root = tempfile.mkdtemp(prefix="vmon-c05-")
             self.fs = fsmon.make_native(rec)
             os.mkdir(os.path.join(self.root, "sub"))
+            os.mkdir(os.path.join(self.root, "pack.1"))
         else:
             self.root = "/song"
             self.fs = fsmon.make_memory(rec)
             self.fs.makedirs("/song/sub")
+            self.fs.makedirs("/song/pack.1")
         rec.enabled = True
 
     def path(self, name):
@@ -276,8 +283,13 @@ def check(ctx, case):
     world = World(case["fs"], rec)
     audit = fsmon.AuditMonitor.get()
     try:
-        world.write("in." + ext, data)
-        inp = world.path("in." + ext)
+        in_name = case.get("in_name", "in." + ext)
+        world.write(in_name, data)
+        inp = world.path(in_name)
+        if in_name.count(".") > 1:
+            ctx.feat("input_path_with_several_dots")
+            if case.get("content_ext", ext) != ext:
+                ctx.feat("several_dots_and_content_of_the_other_format")
         want_enc = ref_detect(data, tried)
         fskw = dict(filesystem=world.fs)
 
@@ -336,6 +348,10 @@ def check(ctx, case):
             bak_path = inp
         elif bak_name == "=output":
             bak_path = out_path if out_path else inp
+        elif bak_name == "=prefix":
+            # a different file whose path is a proper prefix (so a substring) of the input path: 'dir/in' for 'dir/in.sm'
+            bak_path = inp[: -rng.choice([1, len(ext), len(ext) + 1])]
+            ctx.feat("backup_path_is_a_proper_prefix_of_the_input_path")
         else:
             bak_path = world.path(bak_name) if bak_name else None
         clash = bak_path is not None and bak_path in (inp, out_path)
